@@ -13,6 +13,7 @@ def spec_programs(ctx, scale=1.0):
         ("c02", "rand", str(ctx.seed + 1), n(1500, 20000), "4"),
         ("c03", "enum", "1", "0", "100"), ("c03", "enum", "2", "0", "1000"),
         ("c03", "rand", str(ctx.seed + 2), n(1500, 20000), "6"),
+        ("c03", "specs", str(ctx.seed + 5), n(800, 10000)),
         ("c05", "enum", "8", "13", "1", "0", "100000"),
         ("c05", "rand", str(ctx.seed + 3), n(1500, 20000), "3"),
         ("c05", "rand", str(ctx.seed + 4), n(200, 3000), "5"),
@@ -21,12 +22,24 @@ def spec_programs(ctx, scale=1.0):
 
 
 RULE = ("programs rendered by the Lean specifications: expressions (all 1-operator trees x 3 parenthesisations + random depth 4) in 10 contexts, "
-        "declarators (all derivation sequences <=2 + random <=6) in 11 contexts, statement bodies (depth-1 exhaustive + random depth 3/5 with "
+        "declarators (all derivation sequences <=2 + random <=6) in 11 contexts, declaration specifiers in random order, statement bodies (depth-1 exhaustive + random depth 3/5 with "
         "declarations, pragmas, switch label chains), plus the accepted programs of the repository corpus")
 
 
+EXTRA = [
+    "enum E { A = -1, B = -0x10, C = +2, D = ~0 }; int a[3] = { [-0] = 1, [+1] = 2 };",
+    "void f(int x) { switch (x) { case -2: ; case +3: ; case !0: ; case -1u: ; } }",
+    "struct S { int b : +3; unsigned c : -(-2); }; _Static_assert(-1, \"m\"); _Alignas(+8) int al;",
+    "int v = -1; double d = -1.5; int w = -(1); int u = - -1; int t = a - -1; int s = a+-1;",
+    "int *p = &x; int q = *p**p; int r = a&&b; int m = a&-b; int n = x--- -y;",
+    "char *s1 = \"a\"\"b\"; char *s2 = \"a\" \"b\"; int c1 = 'a'+'b';",
+    "int a1[]={1,2,3};struct T{int x;}t={.x=1};int(*fp)(int)=0;",
+]
+
+
 def pool(ctx, scale=1.0, with_corpus=True):
-    texts = [t for t, _ in spec_programs(ctx, scale)]
+    from . import features
+    texts = [t for t, _ in spec_programs(ctx, scale)] + EXTRA + [p for p in features.PROGRAMS if "#" not in p]
     if with_corpus:
         texts += corpus.valid_programs()
     return list(dict.fromkeys(texts))
